@@ -380,14 +380,16 @@ class NumpyShim:
     def exp(self, x):
         if isinstance(x, Sym):
             return self._exp.exp(x)
-        return _np.exp(x)
+        return _np.exp(_real_float(x) if isinstance(x, Fraction) else x)
 
     def log(self, x):
         if isinstance(x, Sym):
             return self._log.log(x)
-        return _np.log(x)
+        return _np.log(_real_float(x) if isinstance(x, Fraction) else x)
 
     def floor(self, x):
+        if isinstance(x, Fraction):
+            x = _real_float(x)
         if isinstance(x, Sym):
             t = x.t
             if t.sort() == z3.IntSort():
